@@ -343,6 +343,10 @@ def edit_field(obj, rng, depth=0):
             if action == 'pop' and value:
                 value.pop()
                 return '%s.pop()' % field.name
+            if value and isinstance(value[0], (bytes, str)) and rng.random() < 0.4:
+                # an empty element (the root label of an absolute name, an empty token)
+                value.append(type(value[0])())
+                return '%s.append(empty)' % field.name
             if value and isinstance(value[0], (int, bytes, str)) and not isinstance(value[0], bool):
                 value.append(value[rng.randrange(len(value))])
                 return '%s.append(copy)' % field.name
@@ -368,9 +372,21 @@ def edit_field(obj, rng, depth=0):
                 return '%s.add(%s)' % (field.name, member.name)
             continue
         if isinstance(value, bytearray) and rng.random() < 0.5:
+            if value and rng.random() < 0.4:
+                keep = rng.choice((0, 1, len(value) // 2, len(value) - 1))
+                del value[keep:]
+                return '%s.truncate(%d bytes left)' % (field.name, keep)
             grow = rng.choice((1, 300, 70000))
             value.extend(b'\xa5' * grow)
             return '%s.extend(%d bytes)' % (field.name, grow)
+        if isinstance(value, (bytes, bytearray, str)) and len(value) and rng.random() < 0.35:
+            # a shorter or empty value of the same type
+            keep = rng.choice((0, 0, 1, len(value) // 2, len(value) - 1))
+            try:
+                setattr(obj, field.name, value[:keep])
+                return 'setattr(%s, %d of %d)' % (field.name, keep, len(value))
+            except Exception:  # pylint: disable=broad-except
+                pass
         from cryptoparser.common.base import ArrayBase
         if isinstance(value, ArrayBase) and not len(value) and rng.random() < 0.7:
             # an empty vector gets content (from the item pool of its class)
